@@ -40,6 +40,16 @@ CLAIMS = {
          "once; the stream of groups gets the terminal once; flattening reproduces the source. Each run executes all scripts <= 5 items over "
          "4 values x 4 key functions x Subject/SubjectThreads groups x hot/cold sources on the crate, judges the implementation's trace with "
          "the extracted predicates and compares it with the model's.", "DESIGN.md section 5 C20"),
+ "C05": ("Theorems over every stimulus sequence (outer items that are synchronous or hot inner observables, terminals, hot inner "
+         "notifications in any order) and every limit >= 1 or unbounded: C05_limit (never more than n inner observables subscribed at any "
+         "instant, on the observable subscribe/complete trace), C05_downstream_wf, C05_done_not_early / C05_done_not_late (completion exactly "
+         "when the outer stream and all inner observables have completed), C05_count_exact, C05_no_stuck (the nested subscription cascade "
+         "started from an inner completion terminates; on the pinned tree that scenario panicked / dead-locked and was repaired by a fix: "
+         "commit). Each run executes all stimulus sequences <= 5 steps with <= 3 inners for merge_all(1|2|3|MAX), concat_all, flatten, "
+         "flat_map, concat_map in both forms plus 40k random longer ones, compares the full per-stimulus trace (inner subscriptions, "
+         "completions, tagged items, terminal, panic/hang) with the model and judges it with the extracted predicates (limit, grammar, "
+         "outer order, completion exactly when done / no starvation). PARTIAL: 'every inner item exactly once in its own order' is "
+         "established by the full-trace correspondence, not by a separate theorem.", "DESIGN.md section 5 C05"),
 }
 
 checks = []
